@@ -1062,3 +1062,127 @@ func TestC10_BufferEdgeExh(t *testing.T) {
 		}
 	})
 }
+
+// ------------------------------------------------------------------ best checksums (accessor over a reused variable)
+
+type BestEntry struct {
+	Hash string `json:"hash"`
+	Size int64  `json:"size"`
+	Name string `json:"name"`
+}
+
+type BestDoc struct {
+	Sha256 []BestEntry `json:"sha256"`
+	Sha512 []BestEntry `json:"sha512"`
+	Folded bool        `json:"folded"` // first entry on the field's own line or on the next one
+}
+
+type BestCase struct {
+	Docs []BestDoc `json:"docs"` // decoded one after the other into ONE variable
+}
+
+type bestHolder struct {
+	Source string
+	control.BestChecksums
+}
+
+func (d BestDoc) text() string {
+	var sb strings.Builder
+	sb.WriteString("Source: s\n")
+	field := func(name string, es []BestEntry) {
+		if len(es) == 0 {
+			return
+		}
+		sb.WriteString(name + ":")
+		for i, e := range es {
+			line := fmt.Sprintf("%s %d %s", e.Hash, e.Size, e.Name)
+			if i == 0 && !d.Folded {
+				sb.WriteString(" " + line + "\n")
+			} else {
+				if i == 0 {
+					sb.WriteString("\n")
+				}
+				sb.WriteString(" " + line + "\n")
+			}
+		}
+	}
+	field("Checksums-Sha256", d.Sha256)
+	field("Checksums-Sha512", d.Sha512)
+	return sb.String()
+}
+
+func genBestDoc(t *rapid.T) BestDoc {
+	d := BestDoc{Folded: rapid.Bool().Draw(t, "folded")}
+	gen := func(label string, hexLen int) []BestEntry {
+		es := []BestEntry{}
+		for n := rapid.IntRange(0, 3).Draw(t, label+"n"); n > 0; n-- {
+			es = append(es, BestEntry{Hash: genFromAlphabet(t, label+"h", "0123456789abcdef", hexLen, hexLen), Size: rapid.Int64Range(0, 1<<40).Draw(t, label+"s"),
+				Name: rapid.SampledFrom([]string{"a_1.0.dsc", "a_1.0.orig.tar.gz", "a_1.0-1.debian.tar.xz", "b.tar", "x"}).Draw(t, label+"name")})
+		}
+		return es
+	}
+	d.Sha256, d.Sha512 = gen("s256", 64), gen("s512", 128)
+	return d
+}
+
+var specC10Best = Register(&Spec[BestCase]{
+	Prop: "C10", Name: "best",
+	Rule: "2..4 documents with Checksums-Sha256 and / or Checksums-Sha512 lists of 0..3 (hash, size, name) entries each, decoded one after the other into ONE variable of a struct embedding control.BestChecksums. Oracle: after each decode Checksums() is the Sha256 list the variable now holds if it holds one, else its Sha512 list, else empty (a list the new document mentions replaces the old one, one it does not mention stays - the decoder's documented behaviour) - as (algorithm, hash, size, name) tuples in order; the slice handed out is the caller's (scribbled over, asked again: the model's list again). Non-trivial: two consecutive documents whose best lists differ; distinct by case.",
+	Check: func(c BestCase, r *Recorder) error {
+		want := func(d BestDoc) (string, []BestEntry) {
+			if len(d.Sha256) > 0 {
+				return "sha256", d.Sha256
+			}
+			return "sha512", d.Sha512
+		}
+		nt := false
+		for i := 1; i < len(c.Docs); i++ {
+			if len(c.Docs[i].Sha256) > 0 && jsonKey(c.Docs[i].Sha256) != jsonKey(c.Docs[i-1].Sha256) {
+				nt = true
+			}
+		}
+		r.Case(jsonKey(c), nt)
+		var v bestHolder
+		state := BestDoc{}
+		for i, d := range c.Docs {
+			if err := control.Unmarshal(&v, strings.NewReader(d.text())); err != nil {
+				return errf("document %d %q: %v", i, d.text(), err)
+			}
+			// a member the new document does not mention keeps what it held (the decoder's
+			// documented behaviour, as in encoding/json); one it mentions is replaced
+			if len(d.Sha256) > 0 {
+				state.Sha256 = d.Sha256
+			}
+			if len(d.Sha512) > 0 {
+				state.Sha512 = d.Sha512
+			}
+			algo, es := want(state)
+			for round := 0; round < 2; round++ {
+				got := v.Checksums()
+				if len(got) != len(es) {
+					return errf("document %d %q (decoded into a variable that held %d documents before), call %d: Checksums() has %d entries, the best list of the document has %d", i, d.text(), i, round+1, len(got), len(es))
+				}
+				for k, e := range es {
+					g := got[k]
+					if g.Algorithm != algo || g.Hash != e.Hash || g.Size != e.Size || g.Filename != e.Name {
+						return errf("document %d %q (decoded into a variable that held %d documents before), call %d: Checksums()[%d] = (%s, %s, %d, %s), the document says (%s, %s, %d, %s)", i, d.text(), i, round+1, k, g.Algorithm, g.Hash, g.Size, g.Filename, algo, e.Hash, e.Size, e.Name)
+					}
+				}
+				for k := range got {
+					got[k] = control.FileHash{Algorithm: "scribbled", Hash: "x", Filename: "/abs/" + got[k].Filename}
+				}
+			}
+		}
+		return nil
+	},
+})
+
+func TestC10_Best(t *testing.T) {
+	specC10Best.Run(t, func(t *rapid.T) BestCase {
+		c := BestCase{}
+		for n := rapid.IntRange(2, 4).Draw(t, "docs"); n > 0; n-- {
+			c.Docs = append(c.Docs, genBestDoc(t))
+		}
+		return c
+	}, 4000, 30000)
+}
